@@ -261,7 +261,11 @@ class MultiWcsProcessor(object):
 
     def _tile_parallel(self, pio, reproject_function, cli_progress, parallel, **kwargs):
         import multiprocessing as mp
-        from .par_util import check_workers, put_checking_workers
+        from .par_util import (
+            check_workers,
+            finish_checking_workers,
+            put_checking_workers,
+        )
 
         # Start up the workers
 
@@ -289,8 +293,7 @@ class MultiWcsProcessor(object):
 
         # Wrap up
 
-        queue.close()
-        queue.join_thread()
+        finish_checking_workers(queue, workers, done_event)
         done_event.set()
 
         for w in workers:
